@@ -7,6 +7,7 @@ distance, ties towards the lower value) — independently of the code's carving 
 -/
 import Frequenz.Lemmas.MatryoshkaSweep
 import Frequenz.Lemmas.Bucket
+import Frequenz.Lemmas.MatryoshkaTie
 
 open Matryoshka BoundsLemmas
 
@@ -287,3 +288,28 @@ example : C04_Compatible C04_exSb (sortDesc [C04_exLo, C04_exHi]) := by
   · intro e he; cases he; decide +kernel
   · simp only [ConflictFree, C04_usable_some_iff]
     decide +kernel
+
+/-- **The hand-written `get_status` model is the current source text.**  `Extracted.Matryoshka.statusInit/statusStep`
+are machine-translated from `get_status` on every run (statements before the loop with the early return, ONE iteration
+of the loop body; the extractor also checks that the loop iterates over `sorted(<bucket>, reverse=True)` and that
+`Bounds(lower=…, upper=…)` of the loop variables is reported).  For ALL arguments: (1) the early `none` of
+`reportBounds` and its initial state / `effExcl` are the extracted prelude; (2) `statusStep` on a not-yet-stopped
+state is the extracted loop body, a stopped state is left alone; (3) hence `reportBounds` is prelude +
+`for`-with-`break` over the extracted body + `Bounds(lower_bound, upper_bound)`. -/
+theorem C04_model_is_source :
+    (∀ sb : SystemBounds,
+      Extracted.Matryoshka.statusInit sb.incl sb.excl = sb.incl.map (fun b => (b.lower, b.upper, effExcl sb))) ∧
+    (∀ (sb : SystemBounds) (bucket : List Proposal) (prio : Int), sb.incl = none → reportBounds sb bucket prio = none) ∧
+    (∀ (ex : Option Bounds) (prio : Int) (s : RSt) (p : Proposal), s.stopped = false →
+      Extracted.Matryoshka.statusStep ex s.lo s.hi prio p.prio p.lo p.hi =
+        ((statusStep ex prio s p).lo, (statusStep ex prio s p).hi, (statusStep ex prio s p).stopped)) ∧
+    (∀ (ex : Option Bounds) (prio : Int) (s : RSt) (p : Proposal), s.stopped = true → statusStep ex prio s p = s) ∧
+    (∀ (sb : SystemBounds) (bucket : List Proposal) (prio : Int),
+      reportBounds sb bucket prio = MatryoshkaTie.srcReportBounds sb.incl sb.excl (sortDesc bucket) prio) :=
+  ⟨MatryoshkaTie.statusInit_eq,
+   fun sb bucket prio h => by unfold reportBounds; rw [h],
+   MatryoshkaTie.statusStep_eq, MatryoshkaTie.statusStep_stopped, MatryoshkaTie.reportBounds_eq_source⟩
+
+/-- Non-vacuity: the source-assembled `get_status` loop computes the non-trivial report of the example bucket. -/
+example : MatryoshkaTie.srcReportBounds C04_exSb.incl C04_exSb.excl (sortDesc [C04_exLo, C04_exHi]) 2
+    = some ⟨10, 60⟩ := by decide +kernel
